@@ -23,7 +23,7 @@ struct Sub {
     static const rtosc::Ports ports;
 };
 struct Sub2 { int a_rather_long_parameter_name; int x; Sub2() : a_rather_long_parameter_name(0), x(0) {} static const rtosc::Ports ports; };
-struct Odd { int pi_min, pi_max; float pf_min, pf_max; int ai_min[3]; float af_max[3]; int po_max; int po_pre; int ao_pre[3]; Odd() { memset((void *)this, 0, sizeof *this); } static const rtosc::Ports ports; };
+struct Odd { int pi_min, pi_max; float pf_min, pf_max; int ai_min[3]; float af_max[3]; int po_max; int po_pre; int ao_pre[3]; float volume; int vol; Odd() { memset((void *)this, 0, sizeof *this); } static const rtosc::Ports ports; };
 struct App {
     char pc; int pi; int pi_nb; int pi_neg; int pi_frac;
     float pf; float pf_log; float pf_nb; float pf_unit;
@@ -57,6 +57,8 @@ inline const rtosc::Ports Odd::ports = {
     rOption(po_max, rOptions(alpha, beta, gamma), rMap(max, 2), "option with an upper bound only"),
     rOption(po_pre, rOptions(saw, sawtooth, sq, square, s), "option whose earlier symbols are prefixes of later ones"),
     rArrayOption(ao_pre, 3, rOptions(tri, triangle, t), rLinear(0, 2), "option array with prefix symbols"),
+    rParamF(volume, rLinear(0, 1000), "declared before a port whose name it starts with, other type and range"),
+    rParamI(vol, rLinear(0, 100), "a port whose name is the beginning of an earlier sibling's name"),
 };
 #undef rObject
 #define rObject Sub2
@@ -191,6 +193,8 @@ inline const std::vector<Leaf> &leaves() {
     for (int i = 0; i < 3; i++) L.push_back({"/odd/af_max" + std::to_string(i), K_PARAM_F, false, true, "", "1.5", {}, 0, [i](App &a) { return vf(a.odd.af_max[i]); }});
     L.push_back({"/odd/po_max", K_OPTION, false, true, "", "2", {"alpha", "beta", "gamma"}, 0, [](App &a) { return vi(a.odd.po_max); }});
     L.push_back({"/odd/po_pre", K_OPTION, false, false, "", "", {"saw", "sawtooth", "sq", "square", "s"}, 0, [](App &a) { return vi(a.odd.po_pre); }});
+    L.push_back({"/odd/volume", K_PARAM_F, true, true, "0", "1000", {}, 0, [](App &a) { return vf(a.odd.volume); }});
+    L.push_back({"/odd/vol", K_PARAM_I, true, true, "0", "100", {}, 0, [](App &a) { return vi(a.odd.vol); }});
     for (int i = 0; i < 3; i++) L.push_back({"/odd/ao_pre" + std::to_string(i), K_OPTION, true, true, "0", "2", {"tri", "triangle", "t"}, 0, [i](App &a) { return vi(a.odd.ao_pre[i]); }});
     return L;
 }
